@@ -132,34 +132,61 @@ Record call := { c_file : option (list byte); c_argv : option (list (list byte))
 
 Inductive variant := TS | NTS.
 
+(** facts about the life cycle read from the generated skeletons (Wrapper/Ids.v computes them) *)
+Record ids_facts := {
+  ctor_resets : bool;      (* snoopy_init -> inputdatastorage_ctor -> setDefaults assigns all three fields *)
+  dtor_resets : bool;      (* snoopy_cleanup -> inputdatastorage_dtor -> setDefaults *)
+  stores_file : bool; stores_argv : bool; stores_envp : bool   (* wrapper_init stores its own parameter into the field, after snoopy_init *)
+}.
+Definition ids_facts_ok (f : ids_facts) : bool :=
+  (ctor_resets f || (stores_file f && stores_argv f)) && stores_file f && stores_argv f.
+
 (** what the data sources see during the logging of [cl], given the record [st] left behind
     by the history (NTS) or freshly allocated with arbitrary content (TS) *)
-Definition during (st : ids) (cl : call) : ids :=
-  let s1 := ids_defaults in                                      (* ctor: setDefaults *)
-  {| i_init := i_init s1; i_file := c_file cl; i_argv := c_argv cl; i_envp := c_envp cl |}.   (* three stores *)
-Definition after (st : ids) : ids := ids_defaults.               (* dtor: setDefaults *)
+Definition during (f : ids_facts) (st : ids) (cl : call) : ids :=
+  let s1 := if ctor_resets f then ids_defaults else st in
+  {| i_init := true;
+     i_file := if stores_file f then c_file cl else i_file s1;
+     i_argv := if stores_argv f then c_argv cl else i_argv s1;
+     i_envp := if stores_envp f then c_envp cl else i_envp s1 |}.
+Definition after (f : ids_facts) (st : ids) : ids := if dtor_resets f then ids_defaults else st.
 
 Section History.
   Variable c : cmdline_consts.
+  Variable f : ids_facts.
   (** the record of a call: (cmdline, filename) at some buffer size *)
   Definition record_of (sz : N) (st : ids) : list byte * list byte :=
     (cmdline c (i_file st) (i_argv st) sz,
-     match i_file st with Some f => filename_ds f sz | None => [] end).
+     match i_file st with Some fl => filename_ds fl sz | None => [] end).
 
   Fixpoint records (v : variant) (sz : N) (st : ids) (h : list call) : list (list byte * list byte) :=
     match h with
     | [] => []
     | cl :: h' =>
       let st0 := match v with TS => ids_garbage (i_file st) (i_argv st) (i_envp st) | NTS => st end in
-      let d := during st0 cl in
-      record_of sz d :: records v sz (after d) h'
+      let d := during f st0 cl in
+      record_of sz d :: records v sz (after f d) h'
     end.
 
   Definition record_alone (sz : N) (cl : call) : list byte * list byte :=
-    record_of sz (during ids_defaults cl).
+    record_of sz (during f ids_defaults cl).
 
-  Theorem no_leftover v sz : forall h st, records v sz st h = map (record_alone sz) h.
+  Theorem no_leftover v sz : ids_facts_ok f = true -> forall h st, records v sz st h = map (record_alone sz) h.
   Proof.
-    induction h as [|cl h IH]; intros st; [reflexivity|]. cbn [records map]. f_equal. apply IH.
+    intros Hok. unfold ids_facts_ok in Hok. repeat (apply andb_true_iff in Hok as [Hok ?]).
+    induction h as [|cl h IH]; intros st; [reflexivity|]. cbn [records map]. f_equal; [|apply IH].
+    unfold record_alone, record_of, during.
+    match goal with H : stores_file f = true |- _ => rewrite H end.
+    match goal with H : stores_argv f = true |- _ => rewrite H end. reflexivity.
+  Qed.
+
+  (** the record of a call is exactly its own path and its own arguments *)
+  Theorem record_is_own sz cl : ids_facts_ok f = true ->
+    record_alone sz cl = (cmdline c (c_file cl) (c_argv cl) sz, match c_file cl with Some fl => filename_ds fl sz | None => [] end).
+  Proof.
+    intros Hok. unfold ids_facts_ok in Hok. repeat (apply andb_true_iff in Hok as [Hok ?]).
+    unfold record_alone, record_of, during.
+    match goal with H : stores_file f = true |- _ => rewrite H end.
+    match goal with H : stores_argv f = true |- _ => rewrite H end. reflexivity.
   Qed.
 End History.
